@@ -172,17 +172,17 @@ theorem C34_nothing_after_close (s : St) (id : Nat) (o1 o2 : List Nat) :
       subst h
       simp [forget, lookup_delKey] at hq
 
-/-- and the END_STREAM flag is only ever put on the frame that empties the write it came from:
-    a frame with END_STREAM taken through `takeW` leaves no queue for that stream -/
-theorem C34_end_closes (s : St) (o1 o2 : List Nat) (id : Nat) (h : (take s o1 o2).1.ends = some id) :
-    (takeW s o1 o2).2.sq.lookup id = none ∧ (takeW s o1 o2).2.streams.lookup id = none := by
-  unfold takeW
-  simp only [h]
-  simp [forget, lookup_delKey]
+/-- a frame with END_STREAM goes through `wroteFrame`, which closes the stream: afterwards neither a
+    queue nor the stream is left (whatever was still queued behind it is dropped by `forgetStream`) -/
+theorem C34_end_closes (s : St) (id : Nat) :
+    (afterEnd s id).sq.lookup id = none ∧ (afterEnd s id).streams.lookup id = none := by
+  unfold afterEnd
+  split <;> simp [forget, lookup_delKey]
 
 /-- **C34 (per-stream FIFO over whole histories)**: for every sequence of operations (opening streams,
-    queueing DATA/HEADERS writes on any stream, control frames, takes with ANY map-iteration orders,
-    WINDOW_UPDATEs, SETTINGS changes, closing OTHER streams) during which stream `id` stays open:
+    queueing DATA/HEADERS writes on any stream, control frames, writer chains (takes with ANY
+    map-iteration orders, END_STREAM frames of OTHER streams closing them through `wroteFrame`),
+    WINDOW_UPDATEs, SETTINGS changes, resets of OTHER streams) during which stream `id` stays open:
     what was pending on `id` before, followed by everything queued on it since, equals everything
     written on it followed by what is still pending — as sequences of octets, HEADERS markers and
     END_STREAM markers.  So the DATA chunks of a stream concatenate to the queued writes in order,
@@ -210,6 +210,32 @@ theorem C34_fifo_last_frame (id : Nat) (s : St) (msg : Nat) (ops : List Op) (o1 
         pending (take (trace id s msg ops).1 o1 o2).2 id := by
   rw [C34_fifo_trace id s msg ops h, List.append_assoc, ← take_keeps]
 
+/-- **C34 (the server's view of the send windows = what the client granted)**: run any sequence of
+    operations (numbers as the frame parser / `Setting.Valid` allow) while the connection lives —
+    including streams reset or ended with DATA still queued (`forgetStream`), refused WINDOW_UPDATEs,
+    SETTINGS shrinking windows below zero.  Side by side runs the client-side GHOST, updated only from
+    the operations, their verdicts and the frames written: initial windows + WINDOW_UPDATEs + SETTINGS
+    deltas − DATA received.  Then `sc.flow.n` equals the ghost connection window, every live stream's
+    `flow.n` equals its ghost window (the two maps are equal), `sc.flow.n ≥ 0`, and every counter fits
+    int32 (no wrap-around anywhere).  Closing a stream changes neither window: bytes that were queued
+    but never written were never charged. -/
+theorem C34_view_eq_ghost (ops : List Op) (hok : ∀ op ∈ ops, op.valid) :
+    let r := runG init {} 0 ops
+    r.1.conn = r.2.conn ∧ r.1.streams = r.2.win ∧ 0 ≤ r.1.conn ∧ I32 r.1.conn ∧ AllR r.1.streams := by
+  have h := runG_view ops init {} 0 init_view hok
+  exact ⟨h.1, h.2.1, h.2.2.2.1, h.2.2.2.2.1, h.2.2.2.2.2.2.2⟩
+
+/-- with `C34_within_window`: every DATA frame fits the windows the client really granted -/
+theorem C34_data_within_granted (ops : List Op) (hok : ∀ op ∈ ops, op.valid) (o1 o2 : List Nat)
+    (id msg off len : Nat) (e d : Bool) (s' : St)
+    (h : take (runG init {} 0 ops).1 o1 o2 = (.data id msg off len e d, s')) (hl : 0 < len) :
+    (len : Int) ≤ (runG init {} 0 ops).2.conn ∧
+    ∃ w, (runG init {} 0 ops).2.win.lookup id = some w ∧ (len : Int) ≤ w := by
+  have hv := C34_view_eq_ghost ops hok
+  simp only [] at hv
+  obtain ⟨w, hw, h1, h2, _⟩ := C34_within_window _ o1 o2 id msg off len e d s' h hl
+  exact ⟨by rw [← hv.1]; exact h2, w, by rw [← hv.2.1]; exact hw, h1⟩
+
 /-! ### non-vacuity and concrete behaviour (also replayed through the harness: corpus/C34) -/
 
 /-- window 10 left on the stream, 100 bytes queued with END_STREAM: a 10-byte chunk without END_STREAM -/
@@ -225,9 +251,9 @@ example :
 /-- a two-stream history, from the moment stream 1 is open (stream window 5): 8 octets + END_STREAM are
     queued on stream 1; stream 3's HEADERS go first, then a 5-octet chunk without END_STREAM; 3 octets
     and the END_STREAM marker stay queued -/
-def demoStart : St := (trace 1 init 0 [.setIws 5, .openS 1]).1
+def demoStart : St := (trace 1 init 0 [.setIws 5, .openS 1 false]).1
 def demoOps : List Op :=
-  [.openS 3, .addData 1 8 true, .addHdr 3 false, .takeOp [3, 1] [3, 1], .takeOp [1] [1]]
+  [.openS 3 true, .addData 1 8 true, .addHdr 3 false, .takeOp [[3, 1]], .takeOp [[1]]]
 
 example : aliveAfterEach 1 demoStart 0 demoOps := by
   simp only [demoOps, aliveAfterEach]; decide
@@ -235,6 +261,16 @@ example : aliveAfterEach 1 demoStart 0 demoOps := by
 example : (trace 1 demoStart 0 demoOps).2.1 = bytesOf 0 0 5 ∧
     pending (trace 1 demoStart 0 demoOps).1 1 = bytesOf 0 5 3 ++ [Atom.fin] ∧
     (trace 1 demoStart 0 demoOps).2.2 = bytesOf 0 0 8 ++ [Atom.fin] := by decide
+
+/-- a stream is reset while 100000 octets are still queued, another one is ended by END_STREAM with a
+    write queued behind it: both windows of the model and of the ghost agree and nothing is refunded -/
+def closeOps : List Op :=
+  [.openS 1 false, .addData 1 100000 false, .forgetOp 1, .openS 3 true, .addData 3 10 true,
+   .addData 3 7 false, .takeOp [[3], []], .takeOp [[]]]
+
+example : (∀ op ∈ closeOps, op.valid) := by simp [closeOps, Op.valid]
+example : (runG init {} 0 closeOps).1.conn = 65525 ∧ (runG init {} 0 closeOps).2.conn = 65525 ∧
+    (runG init {} 0 closeOps).1.streams = [] ∧ (runG init {} 0 closeOps).1.sq = [] := by decide
 
 /-- a negative stream window (after a SETTINGS shrink) blocks the stream and a later
     WINDOW_UPDATE is honoured (before fix C34-flow-add it was answered with FLOW_CONTROL_ERROR) -/
